@@ -36,6 +36,27 @@ def wrappers():
     return out
 
 
+def interface_gaps():
+    """public names of the interface modules that should be statement wrappers but are not:
+    (a) a statement class imported by the module that no public wrapper of the module wraps,
+    (b) a public function defined in the module itself that is a plain Python function"""
+    import inspect
+    from kirin import ir
+    from kirin.lowering.python.binding import Binding
+    gaps = []
+    mods = {n: importlib.import_module(f"bloqade.shuttle.dialects.{n}._interface") for n in INTERFACES}
+    mods["grid"] = importlib.import_module("bloqade.geometry.dialects.grid._interface")
+    for mn, m in mods.items():
+        pub = {n: o for n, o in vars(m).items() if not n.startswith("_")}
+        wrapped = {o.parent for o in pub.values() if isinstance(o, Binding)}
+        for n, o in sorted(pub.items()):
+            if inspect.isclass(o) and issubclass(o, ir.Statement) and o not in wrapped:
+                gaps.append((mn, n, "statement class imported by the interface but wrapped by no public wrapper"))
+            if inspect.isfunction(o) and getattr(o, "__module__", None) == m.__name__:
+                gaps.append((mn, n, "public function of the interface that is not a statement wrapper"))
+    return gaps
+
+
 def one_statement_kernel(kind, mn, n, binding):
     """source of a kernel of `kind` whose body is one use of the wrapper; operands are untyped
     kernel parameters, attributes get a literal of their declared type"""
@@ -94,6 +115,14 @@ def run(ctx):
     body += "Lemma vocab_exact_ok : vocab_exact group wrappers = true.\nProof. vm_compute. reflexivity. Qed.\n"
     ok, log = coqrun.compile_lemma_file(ctx.bdir, "Gen_C17", body)
     ctx.obligation(f"Gen_C17: vocab_exact_ok over {len(ws)} reflected wrappers x 3 reflected dialect groups", ok, log[-600:])
+    for mn, n, why in interface_gaps():
+        # a concrete failing kernel: the documented kind for that interface must accept a use of the name
+        accept_kind = [k for ki, k in enumerate(KINDS) if POLICY[MODCAT[mn]][ki]][-1]
+        fn = n if n.islower() else {"Move": "move", "Measure": "measure", "New": "new", "MoveNextTo": "move_next_to", "ResetPosition": "reset_position"}.get(n, n.lower())
+        src = f"@{accept_kind}\ndef main(a0, a1):\n    {mn}.{fn}(a0, a1)\n"
+        got, msg = try_define(src)
+        ctx.fail({"wrapper": f"{mn}.{n}", "kind": "interface-gap"}, {"src": src, "expected": "accepted", "outcome": got + " " + msg},
+                 f"{mn}._interface: {n}: {why}; an @{accept_kind} kernel using {mn}.{fn} is {got} ({msg})")
     ctx.extra["reflected_groups"] = gcats
     ctx.extra["reflected_wrappers"] = [f"{mn}.{n} -> {d}" for mn, n, _, d in ws]
     # ---- behaviour: define one-statement kernels ----
